@@ -3,7 +3,7 @@ import itertools
 import vlib
 
 ID = 'C11'
-LEAN_MODULES = ['TboxModel.C11.Props', 'TboxModel.C11.PropsArena', 'TboxModel.C11.PropsBackend']
+LEAN_MODULES = ['TboxModel.C11.Props', 'TboxModel.C11.PropsArena', 'TboxModel.C11.PropsBackend', 'TboxModel.C11.PropsNames']
 EXE = 'c11'
 THEOREMS = ['Tbox.C11.C11_gating', 'Tbox.C11.C11_hooks_of_tree', 'Tbox.C11.C11_balanced', 'Tbox.C11.C11_balanced_counts',
             'Tbox.C11.C11_reverse', 'Tbox.C11.C11_reverse_closed', 'Tbox.C11.C11_reverse_explicit',
@@ -28,7 +28,14 @@ THEOREMS = ['Tbox.C11.C11_gating', 'Tbox.C11.C11_hooks_of_tree', 'Tbox.C11.C11_b
             'Tbox.C11.Backend.C11_backend_restart_after_failure', 'Tbox.C11.Backend.C11_backend_same_as_main',
             'Tbox.C11.Backend.C11_backend_leak_counterexample', 'Tbox.C11.Backend.C11_backend_leak_repaired',
             'Tbox.C11.Backend.C11_main_signal_partial', 'Tbox.C11.Backend.C11_main_signal_counterexample',
-            'Tbox.C11.Backend.C11_main_signal_prefix']
+            'Tbox.C11.Backend.C11_main_signal_prefix',
+            'Tbox.C11.Names.C11_addAs_refused_unchanged', 'Tbox.C11.Names.C11_addAs_accepted', 'Tbox.C11.Names.C11_siblings_distinct_names',
+            'Tbox.C11.Names.C11_addAs_null', 'Tbox.C11.Names.C11_addAs_null_counterexample',
+            'Tbox.C11.Names.C11_fill_creates_own_key', 'Tbox.C11.Names.C11_init_missing_key_gated',
+            'Tbox.C11.Names.C11_init_receives_own_subobject', 'Tbox.C11.Names.C11_fill_then_init_root_runs',
+            'Tbox.C11.Names.C11_equal_names_share_object_counterexample', 'Tbox.C11.Names.C11_distinct_names_own_object_example',
+            'Tbox.C11.Names.C11_reserved_key_fill_throws_counterexample', 'Tbox.C11.Names.C11_fill_then_init_counterexample',
+            'Tbox.C11.Names.C11_reinit_changed_config_example']
 SOURCES = ['modules/main/module.cpp', 'modules/util/variables.cpp'] + vlib.BASE_SOURCES
 FLAVOUR = 'asan'
 BATCH = 400
@@ -39,7 +46,9 @@ TRUSTED = ['model lean/TboxModel/C11/Model.lean is hand-written from modules/mai
            'Backend.lean (Start()/Stop() of run_in_backend.cpp, stop signal during Main()) is hand-written from the two run_in_*.cpp '
            'files; tied by process scenarios with the real Main()/Start()/Stop(), ContextImp, Log, Args (ContextImp::start() fails only '
            'through -Wl,--wrap: its body cannot fail)',
-           'module names are "" or "m<id>" (unique): name clashes other than two unnamed siblings are not generated']
+           'in the tree/arena ops module names are "" or "m<id>" (unique); arbitrary names, addAs(), equal names, names equal to keys the hooks or '
+           'toJson write, onFillDefaultConfig scripts and edited configuration objects live in the `k` ops (Names.lean: JSON = null / number / '
+           'object; all hooks succeed there, failures come from the configuration), tied by the same differential runs']
 ASSUMPTIONS = ['onStop/onCleanup hooks do not throw (C11_throwing_teardown_counterexample; ~Module is noexcept); exceptions from onInit/onStart '
                'are rolled back and passed on (patches/C11-07, C11_scripts_gating/balanced hold for such histories); hooks that call lifecycle '
                'functions of the tree keep gating and balance (C11_scripts_*), LIFO nesting is stated for trees driven through the root and for '
@@ -51,6 +60,9 @@ RULE = ('cases = a forest of probe modules built with new/add lines (depth <= 5,
         'config key present/missing, per-module onInit/onStart results) followed by initialize/start/stop/cleanup/destroy calls on '
         'roots in random (also repeated / out-of-order) order with fault flags changed between calls; non-trivial = the model run '
         'takes a roll-back branch, survives an optional failure, stops from inside cleanup or emits hooks from the destructor; '
+        '; names world: 2-7 modules with names from a pool of 8 (few distinct names on purpose), add/addAs/addAs(nullptr) between any two, '
+        'fillDefaultConfig with key-writing hooks, config edits (delete / number / object / null at a path), initialize / cleanup / '
+        're-initialize / toJson / destroy; non-trivial there = a shared or foreign config object, a roll-back, a refused duplicate, a type_error; '
         'distinct = distinct op text')
 
 CALLS = ['init', 'start', 'stop', 'cleanup']
@@ -537,6 +549,79 @@ def gen_vars_exhaustive():
             yield ['vnew 0', 'vnew 1', 'vnew 2', 'vdef v0 a 1', 'vdef v1 b 2'] + list(seq) + ['vhas %s zz 0' % o for o in objs] + ['vget v2 a 0', 'vget v0 b 0']
 
 
+# ---- names world (k-ops): arbitrary names, addAs(), the configuration object (Names.lean) ----
+KNAMES = ['-', '#', 'a', 'b', 'c', 'children', 'required', 'vars']
+KKEYS = KNAMES[1:]
+
+K_FIXED = [
+    # an unnamed child passes its parent's object through: its child `a` and the sibling `a` share one sub-object (the later marker wins)
+    ['knew 0 -', 'knew 1 -', 'knew 2 a', 'knew 3 a', 'knew 4 b', 'kadd 0 1 1', 'kadd 1 2 1', 'kadd 0 3 1', 'kadd 3 4 1', 'kfill 0', 'kinit 0', 'kjson 0',
+     'kcleanup 0', 'kdestroy 0'],
+    # duplicate names among siblings: add() and addAs() refuse, addAs() restores the old name; renaming makes it acceptable
+    ['knew 0 a', 'knew 1 b', 'knew 2 b', 'knew 3 c', 'kadd 0 1 1', 'kadd 0 2 1', 'kaddas 0 3 b 0', 'kaddas 0 2 c 1', 'kaddas 0 3 c 1', 'kaddas 0 3 - 0',
+     'kaddas 0 3 a 1', 'kfill 0', 'kinit 0', 'kjson 0', 'kdestroy 0'],
+    # addAs(nullptr, ...) (patches/C11-09); addAs of itself / of its own root / of a module that has a parent: name restored
+    ['knew 0 a', 'knew 1 b', 'knull 0 c 1', 'kadd 0 1 1', 'knull 1 - 0', 'kaddas 0 0 c 1', 'kaddas 1 0 c 1', 'kaddas 1 1 c 1', 'knew 2 -', 'kaddas 2 1 c 1',
+     'kjson 0', 'kfill 0', 'kinit 0', 'knull 0 b 1', 'kaddas 0 2 c 1', 'kdestroy 0', 'kdestroy 2'],
+    # a child named like the key its parent writes (`#`): fillDefaultConfig throws nlohmann's type_error; under an unnamed root it works
+    ['knew 0 a', 'knew 1 #', 'kadd 0 1 1', 'kfill 0', 'kinit 0', 'kput a o', 'kput a/# n', 'kinit 0', 'kcleanup 0', 'kdestroy 0'],
+    ['knew 0 -', 'knew 1 #', 'knew 2 a', 'kadd 0 1 1', 'kadd 1 2 0', 'kfill 0', 'kinit 0', 'kjson 0', 'kdestroy 0'],
+    ['knew 0 a', 'knew 1 b', 'knew 2 c', 'kwr 0 b', 'kadd 0 1 1', 'kadd 1 2 1', 'kfill 0', 'kinit 0', 'kwr 0', 'kfill 0', 'kwr 0 c vars', 'kcfg', 'kfill 0', 'kinit 0',
+     'kdestroy 0'],
+    # reserved keys of toJson as names
+    ['knew 0 children', 'knew 1 children', 'knew 2 required', 'knew 3 vars', 'knew 4 required', 'kadd 0 1 1', 'kadd 0 2 0', 'kadd 0 3 1', 'kadd 1 4 0', 'kjson 0',
+     'kfill 0', 'kinit 0', 'kcleanup 0', 'kjson 0', 'kdestroy 0'],
+    # re-initialize after cleanup with changed content: key removed (required / optional), replaced by a number, by null, restored
+    ['knew 0 a', 'knew 1 b', 'knew 2 c', 'knew 3 b', 'kadd 0 1 1', 'kadd 0 2 0', 'kadd 2 3 1', 'kfill 0', 'kinit 0', 'kinit 0', 'kcleanup 0', 'kdel a/c/b', 'kinit 0',
+     'kcleanup 0', 'kdel a/b', 'kinit 0', 'kput a/b n', 'kinit 0', 'kcleanup 0', 'kput a/b z', 'kput a/c/b/# n', 'kinit 0', 'kcleanup 0', 'kcfg', 'kinit 0',
+     'kfill 0', 'kinit 0', 'kdestroy 0'],
+    # the same configuration object filled by two trees; marker of the second overwrites
+    ['knew 0 a', 'knew 1 a', 'knew 2 b', 'kadd 1 2 1', 'kfill 0', 'kfill 1', 'kinit 0', 'kinit 1', 'kdestroy 0', 'kdestroy 1'],
+    # an initialised tree added below a fresh module (add() looks at the parent's state only), then destroyed through the new parent
+    ['knew 0 -', 'knew 1 children', 'knew 2 #', 'kadd 0 1 1', 'kfill 0', 'kinit 0', 'kaddas 2 0 # 1', 'kjson 2', 'kinit 2', 'kcleanup 2', 'kdestroy 2'],
+    ['knew 0 c', 'knew 1 vars', 'knew 2 required', 'kaddas 0 2 vars 0', 'kfill 0', 'kinit 0', 'kaddas 1 0 - 1', 'kdestroy 1'],
+    # malformed
+    ['knew 0 a', 'knew 0 b', 'knew 1 zz', 'knew 1000 a', 'kadd 0 7 1', 'kaddas 0 0 zz 1', 'kfill 5', 'kinit', 'kput - n', 'kput a/zz n', 'kput a q', 'kdel -',
+     'kwr 0 -', 'knull 3 a 1', 'knull 0 a 2', 'kfrob 0', 'knew 1 b', 'kadd 0 1 1', 'kinit 1', 'kdestroy 1', 'kjson 1', 'kdestroy 0', 'kdestroy 0'],
+]
+
+
+def gen_names_case(rng):
+    n = rng.randint(2, 7)
+    few = rng.random() < 0.6          # few distinct names: collisions are the point
+    pool = rng.sample(KNAMES, 3) + ['-'] if few else KNAMES
+    ops = ['knew %d %s' % (i, rng.choice(pool)) for i in range(n)]
+    for i in range(n):
+        if rng.random() < 0.25:
+            ops.append('kwr %d %s' % (i, ' '.join(rng.choice(KKEYS) for _ in range(rng.randint(0, 2)))))
+    for i in range(1, n):
+        for _ in range(rng.randint(1, 2)):
+            p = rng.randrange(0, n) if rng.random() < 0.15 else rng.randrange(0, i)
+            r = rng.random()
+            if r < 0.45:
+                ops.append('kadd %d %d %d' % (p, i, rng.random() < 0.6))
+            elif r < 0.95:
+                ops.append('kaddas %d %d %s %d' % (p, i, rng.choice(pool), rng.random() < 0.6))
+            else:
+                ops.append('knull %d %s 1' % (p, rng.choice(pool)))
+    def path():
+        return '/'.join(rng.choice([x for x in pool if x != '-'] or ['a']) for _ in range(rng.randint(1, 3)))
+    roots = [0] + [i for i in range(1, n) if rng.random() < 0.3]
+    for _ in range(rng.randint(3, 9)):
+        r = rng.random()
+        root = rng.choice(roots)
+        if r < 0.25: ops.append('kfill %d' % root)
+        elif r < 0.50: ops.append('kinit %d' % root)
+        elif r < 0.62: ops.append('kcleanup %d' % root)
+        elif r < 0.74: ops.append('kdel ' + path())
+        elif r < 0.84: ops.append('kput %s %s' % (path(), rng.choice('noz')))
+        elif r < 0.88: ops.append('kcfg')
+        elif r < 0.94: ops.append('kjson %d' % root)
+        else: ops.append('kaddas %d %d %s 1' % (rng.randrange(n), rng.randrange(n), rng.choice(pool)))
+    ops += ['kfill 0', 'kinit 0', 'kjson 0', 'kcleanup 0', 'kdel ' + path(), 'kinit 0'] + ['kdestroy %d' % i for i in range(n)]
+    return ops
+
+
 def gen(rng, tier):
     n = 500 if tier == 'quick' else 6000
     # malformed stream: both sides must answer bad-op (unknown op, bad flag, unknown id, non-root call, cycle, duplicate id)
@@ -571,6 +656,10 @@ def gen(rng, tier):
         yield gen_script_case(rng)
     for _ in range(n // 3):
         yield gen_throw_case(rng)
+    # names, addAs, the configuration object itself
+    yield from K_FIXED
+    for _ in range(n // 2):
+        yield gen_names_case(rng)
     # toJson: malformed lines
     yield ['new 0 1 1 1 1', 'new 1 0 1 1 1', 'add 0 1 1', 'json 0', 'json 1', 'json 7', 'json', 'json 0 0', 'vdef m1 a 3', 'json 0', 'vundef m1 a', 'json 0',
            'destroy 0', 'json 0']
@@ -840,7 +929,7 @@ MAIN_FIXED = [
 
 
 NT_TAGS = ('init-rollback', 'start-rollback', '-ok-optfail', 'cleanup-with-stop', 'destroy-emits', 'guard-matters', 'thrown', 'catch-matters',
-           'add-fail-cycle')
+           'add-fail-cycle', 'kshared', 'kforeign', 'kinit-rollback', 'kaddas-dup', 'kfill-throws', 'knull')
 
 
 def nontrivial(ops, model_lines):
